@@ -208,9 +208,7 @@ Result execute(const Plan &p) {
     // a fifth of the multi-threaded non-model worlds run the whole construct/solve from a thread of the caller's own parallel region:
     // nested regions are serialised (every OpenMP runtime's default), the library's teams have one member while
     // omp_get_max_threads() still reports nt - a legal situation in which the reported residual must still be the true one
-    // (not with the level-scheduled Gauss-Seidel / ILU solves at >= 4 configured threads: in that situation they relax only the rows of
-    //  thread 0 - recorded under C09, C09-nested-level-schedule - and a diverging iteration's recurrence residual drifts)
-    const bool nested = p.get("nested", 0) != 0 && nt >= 2 && !model && !(p.get("relax") <= 4);      // (any thread count: the parameter variation can switch the level-scheduled form on below 4 threads)
+    const bool nested = p.get("nested", 0) != 0 && nt >= 2 && !model;
     if (nested) { res.counts["nested_caller_worlds"]++; res.faults["team_smaller_than_max_threads"]++; }
     auto body = [&]() {
         try {
